@@ -125,6 +125,8 @@ def clearlyInvalid (lib : Lib) (h : HSpec) (v : Str) : Bool :=
   | "boolean" => (parseBool v).isNone
   | "array" => !(notBlank v)
   | _ =>
+    -- a header published as a string must at least be text: bytes that are not UTF-8 are no string
+    !lib.utf8OK ||
     match h.format with
     | "uuid" => !(uuidShape v) || (v.any fun c => c != '-' && !isHex c)
     | "email" => !(v.contains '@')
